@@ -51,6 +51,7 @@ type Stmt struct {
 	RParenSuffix string      // block only: comment after ")"
 	Blank        bool
 	Interval     []bool // retract: per line, render as [low, high] even when equal
+	Empty        int    `json:",omitempty"` // block with no lines at all: 1 "verb ()", 2 "verb ( )", 3 "verb (" and ")" on two lines
 }
 
 type File struct {
@@ -60,6 +61,7 @@ type File struct {
 	NoFinal bool // no final newline
 	Spaces  int  // 0 = single spaces, 1 = tabs, 2 = multiple spaces
 	After   []string
+	TrailWS int `json:",omitempty"` // >0: two lines in three (blank ones too) end in blanks: 1 a space, 2 a tab, 3 "  \t "
 }
 
 // ---------------------------------------------------------------------------
@@ -72,8 +74,9 @@ type ModPool struct {
 }
 
 var Mods = []ModPool{
-	{"example.com/a", []string{"v1.0.0", "v1.2.3", "v0.1.0", "v1.0.0-rc.1", "v2.0.0+incompatible", "v0.0.0-20200101000000-abcdefabcdef", "v1.2.3+incompatible"}, []string{"v1", "v1.2", "v1.0.0+meta"}},
-	{"example.com/b", []string{"v1.0.0", "v1.10.0", "v1.9.0", "v0.0.1", "v1.10.0+incompatible"}, []string{"v1.9", "v0"}},
+	// (v1.10.2 / v1.2.10 and v1.10.0 / v1.9.10: equal length, different digit grouping, opposite lexical and semantic order)
+	{"example.com/a", []string{"v1.0.0", "v1.2.3", "v0.1.0", "v1.0.0-rc.1", "v2.0.0+incompatible", "v0.0.0-20200101000000-abcdefabcdef", "v1.2.3+incompatible", "v1.10.2", "v1.2.10"}, []string{"v1", "v1.2", "v1.0.0+meta"}},
+	{"example.com/b", []string{"v1.0.0", "v1.10.0", "v1.9.0", "v0.0.1", "v1.10.0+incompatible", "v1.9.10"}, []string{"v1.9", "v0"}},
 	{"example.com/a/v2", []string{"v2.0.0", "v2.1.0", "v2.0.0-alpha"}, []string{"v2", "v2.1"}},
 	{"gopkg.in/yaml.v2", []string{"v2.4.0", "v2.2.8"}, []string{"v2.4"}},
 	{"gopkg.in/check.v1", []string{"v1.0.0", "v0.0.0-20161208181325-20d25e280405"}, []string{"v1"}},
@@ -387,6 +390,19 @@ func Gen(t *rapid.T, o Options) File {
 		}
 		f.Stmts = append(f.Stmts, s)
 	}
+	// a block with nothing in it, anywhere in the file
+	if gen.Chance(t, 8, "emptyblock") {
+		verbs := []string{"require", "exclude", "replace", "retract", "tool", "godebug"}
+		if o.Work {
+			verbs = []string{"use", "replace", "godebug"}
+		}
+		e := Stmt{Block: true, Verb: pick(t, verbs, "emptyverb"), Empty: 1 + gen.Uniform(t, 3, "emptyform"), Blank: rapid.Bool().Draw(t, "emptyblank")}
+		at := gen.Uniform(t, len(f.Stmts)+1, "emptyat")
+		f.Stmts = append(f.Stmts[:at:at], append([]Stmt{e}, f.Stmts[at:]...)...)
+	}
+	if gen.Chance(t, 10, "trailws") {
+		f.TrailWS = 1 + gen.Uniform(t, 3, "trailwskind")
+	}
 	// occasionally move the single statements elsewhere (module at the end etc.)
 	if gen.Chance(t, 20, "shuffle") && len(f.Stmts) > 1 {
 		i := rapid.IntRange(0, len(f.Stmts)-1).Draw(t, "si")
@@ -558,6 +574,10 @@ func (f File) Render() string {
 			lines = append(lines, l)
 			continue
 		}
+		if s.Empty == 1 || s.Empty == 2 {
+			lines = append(lines, s.Verb+sep+[]string{"", "()", "( )"}[s.Empty])
+			continue
+		}
 		for _, c := range s.Before {
 			comment("", c)
 		}
@@ -602,6 +622,13 @@ func (f File) Render() string {
 	nl := "\n"
 	if f.CRLF {
 		nl = "\r\n"
+	}
+	if f.TrailWS >= 1 && f.TrailWS <= 3 {
+		for i := range lines {
+			if (i*7+f.TrailWS)%3 != 0 {
+				lines[i] += []string{"", " ", "\t", "  \t "}[f.TrailWS]
+			}
+		}
 	}
 	out := strings.Join(lines, nl)
 	if !f.NoFinal && len(lines) > 0 {
